@@ -131,6 +131,99 @@ fn main() {
 }
 "#;
 
+
+/// Receivers spanning the option space, written with fully qualified types only, to be placed in
+/// modules that give common names another meaning.
+const HYGIENE_RECEIVERS: &str = r#"
+    #[derive(darling::FromMeta)]
+    pub struct Inner { #[darling(default)] pub p: u32 }
+    #[derive(darling::FromMeta)]
+    #[darling(rename_all = "camelCase", default)]
+    pub struct R { pub a: u32, #[darling(default)] pub b: ::core::option::Option<u32>, #[darling(multiple)] pub c: ::std::vec::Vec<u32>, #[darling(skip)] pub d: u8, #[darling(flatten)] pub e: Inner, #[darling(map = id)] pub f: u32, #[darling(and_then = ok)] pub g: u32, #[darling(with = wf)] pub h: u32, #[darling(default = seven)] pub i: u32, #[darling(multiple, rename = "jj")] pub j: ::std::vec::Vec<Inner> }
+    impl ::core::default::Default for R { fn default() -> Self { loop {} } }
+    impl ::core::default::Default for Inner { fn default() -> Self { loop {} } }
+    fn id(v: u32) -> u32 { v }
+    fn seven() -> u32 { 7 }
+    fn ok(v: u32) -> ::darling::Result<u32> { ::core::result::Result::Ok(v) }
+    fn wf(_: &::syn::Meta) -> ::darling::Result<u32> { ::core::result::Result::Ok(1) }
+    #[derive(darling::FromMeta)]
+    #[darling(from_word = fw, from_none = fnone)]
+    pub enum E { A, B(u32), C { x: u32, #[darling(default)] y: ::core::option::Option<u32> }, #[darling(skip)] D }
+    fn fw() -> ::darling::Result<E> { ::core::result::Result::Ok(E::A) }
+    fn fnone() -> ::core::option::Option<E> { ::core::option::Option::None }
+    #[derive(darling::FromMeta)]
+    pub enum E2 { #[darling(word)] A, B(u32), C { #[darling(flatten)] f: Inner, #[darling(multiple)] m: ::std::vec::Vec<u32> } }
+    #[derive(darling::FromMeta)]
+    pub struct NT(u32);
+    #[derive(darling::FromMeta)]
+    pub struct Unit;
+    #[derive(darling::FromDeriveInput)]
+    #[darling(attributes(a), forward_attrs(doc), supports(struct_named, enum_any))]
+    pub struct DI { pub ident: ::syn::Ident, pub vis: ::syn::Visibility, pub attrs: ::std::vec::Vec<::syn::Attribute>, pub generics: ::syn::Generics, pub data: ::darling::ast::Data<V, F>, #[darling(default)] pub k: u32 }
+    #[derive(darling::FromDeriveInput)]
+    #[darling(attributes(a), from_ident, supports(any))]
+    pub struct DI2 { pub ident: ::syn::Ident, pub k: u32 }
+    impl ::core::convert::From<::syn::Ident> for DI2 { fn from(i: ::syn::Ident) -> Self { DI2 { ident: i, k: 0 } } }
+    #[derive(darling::FromDeriveInput)]
+    #[darling(attributes(a), forward_attrs, supports(struct_unit, struct_tuple, enum_unit, enum_newtype))]
+    pub struct DI3 { #[darling(with = keep)] pub attrs: usize, #[darling(with = body)] pub data: u8, #[darling(multiple)] pub m: ::std::vec::Vec<u32> }
+    fn keep(v: ::std::vec::Vec<::syn::Attribute>) -> ::darling::Result<usize> { ::core::result::Result::Ok(v.len()) }
+    fn body(_: &::syn::Data) -> ::darling::Result<u8> { ::core::result::Result::Ok(0) }
+    #[derive(darling::FromField)]
+    #[darling(attributes(a), forward_attrs)]
+    pub struct F { pub ident: ::core::option::Option<::syn::Ident>, pub ty: ::syn::Type, pub vis: ::syn::Visibility, pub attrs: ::std::vec::Vec<::syn::Attribute>, #[darling(default)] pub k: u32 }
+    #[derive(darling::FromVariant)]
+    #[darling(attributes(a), supports(unit, newtype))]
+    pub struct V { pub ident: ::syn::Ident, pub fields: ::darling::ast::Fields<F>, pub discriminant: ::core::option::Option<::syn::Expr> }
+    #[derive(darling::FromTypeParam)]
+    #[darling(attributes(a))]
+    pub struct TP { pub ident: ::syn::Ident, pub bounds: ::std::vec::Vec<::syn::TypeParamBound>, pub default: ::core::option::Option<::syn::Type> }
+    #[derive(darling::FromAttributes)]
+    #[darling(attributes(a))]
+    pub struct FA { #[darling(default)] pub k: u32, #[darling(multiple)] pub m: ::std::vec::Vec<u32> }
+"#;
+
+/// (module name, what the receiver's module defines under a common name)
+const SHADOWS: [(&str, &str); 28] = [
+    ("option", "pub struct Option;"),
+    ("some", "pub struct Some;"),
+    ("none", "pub struct None;"),
+    ("some_none_variants", "pub enum Quantifier { All, Some, None } pub use self::Quantifier::*;"),
+    ("result", "pub struct Result;"),
+    ("result_alias", "pub type Result<T> = ::core::result::Result<T, ()>;"),
+    ("ok", "pub struct Ok;"),
+    ("err", "pub struct Err;"),
+    ("vec", "pub struct Vec;"),
+    ("vec_generic", "pub struct Vec<T, U>(T, U);"),
+    ("string", "pub struct String;"),
+    ("box_", "pub struct Box;"),
+    ("default_struct", "pub struct Default;"),
+    ("default_trait", "pub trait Default { fn default() -> u8; }"),
+    ("error", "pub struct Error; pub struct Meta; pub struct NestedMeta; pub struct FromMeta; pub struct Ident;"),
+    ("iterator", "pub trait Iterator {} pub trait IntoIterator {} pub trait Extend {}"),
+    ("conversions", "pub trait Into {} pub trait From {} pub trait AsRef {} pub trait ToString {} pub trait Clone {} pub trait ToOwned {}"),
+    ("std_mods", "pub mod std {} pub mod core {} pub mod alloc {}"),
+    ("darling_mods", "pub mod darling_core {} pub mod export {} pub mod ast {} pub mod util {}"),
+    ("fns", "pub fn identity() {} pub fn drop() {} pub fn default() {}"),
+    ("macro_vec", "macro_rules! vec { ($($t:tt)*) => { compile_error!(\"the receiver crate's own vec!\") } }"),
+    ("macro_format", "macro_rules! format { ($($t:tt)*) => { compile_error!(\"the receiver crate's own format!\") } }"),
+    ("macro_panic", "macro_rules! panic { ($($t:tt)*) => { compile_error!(\"the receiver crate's own panic!\") } } macro_rules! unreachable { ($($t:tt)*) => { compile_error!(\"own unreachable!\") } }"),
+    ("macro_matches", "macro_rules! matches { ($($t:tt)*) => { compile_error!(\"own matches!\") } } macro_rules! stringify { ($($t:tt)*) => { compile_error!(\"own stringify!\") } }"),
+    ("macro_assert", "macro_rules! assert { ($($t:tt)*) => { compile_error!(\"own assert!\") } } macro_rules! debug_assert { ($($t:tt)*) => { compile_error!(\"own\") } } macro_rules! write { ($($t:tt)*) => { compile_error!(\"own\") } }"),
+    ("primitives", "pub struct bool_; pub struct usize_; pub type Self_ = u8;"),
+    ("syn_name", "pub mod syn_ {} pub struct Attribute; pub struct Data; pub struct Fields; pub struct Generics; pub struct Expr; pub struct Type;"),
+    ("everything", "pub struct Option; pub struct Some; pub struct None; pub struct Result; pub struct Ok; pub struct Err; pub struct Vec; pub struct String; pub struct Box; pub struct Default; pub struct Error;"),
+];
+
+fn hygiene_src() -> String {
+    let mut s = String::from("#![allow(non_camel_case_types, dead_code, non_snake_case, non_upper_case_globals, unused)]\n");
+    for (name, shadow) in SHADOWS {
+        s.push_str(&format!("mod h_{name} {{\n    {shadow}\n{HYGIENE_RECEIVERS}}}\n"));
+    }
+    s.push_str("fn main() {}\n");
+    s
+}
+
 fn generic_src() -> String {
     let mut s = String::from(GENERIC_HEAD);
     s.push_str(&generic_module("g_meta", "FromMeta", ""));
@@ -226,13 +319,14 @@ pub fn generate_c20() -> (Vec<String>, Vec<String>) {
     write_crate("c20_generic", &generic_src());
     let (shapes, _n) = shapes_src();
     write_crate("c20_shapes", &shapes);
+    write_crate("c20_hygiene", &hygiene_src());
     let mut neg = vec![];
     for (pos, src) in NEGATIVES {
         let n = format!("c20_neg_{pos}");
         write_crate(&n, src);
         neg.push(n);
     }
-    (vec!["c20_generic".to_string(), "c20_shapes".to_string()], neg)
+    (vec!["c20_generic".to_string(), "c20_shapes".to_string(), "c20_hygiene".to_string()], neg)
 }
 
 fn rustc_errors(stderr: &str) -> Vec<(String, String)> {
